@@ -565,8 +565,11 @@ def cmd_check(prop, tier):
     }
     if reported:
         ev['coverage']['violations_reported'] = reported
-    os.makedirs(os.path.join(VERIF, 'evidence'), exist_ok=True)
-    with open(os.path.join(VERIF, 'evidence', prop + '.json'), 'w') as f:
+    # evidence describes /repo itself: a run against another source tree (KALIGN_SRC=, used to try seeded changes
+    # in a scratch worktree) leaves its record under run/ instead
+    evdir = os.path.join(VERIF, 'evidence') if os.path.realpath(build.REPO) == '/repo' else os.path.join(VERIF, 'run', 'evidence-other-tree')
+    os.makedirs(evdir, exist_ok=True)
+    with open(os.path.join(evdir, prop + '.json'), 'w') as f:
         json.dump(ev, f, indent=1, sort_keys=False)
     print('slowest job: %s' % (agg.get('slowest'),))
     print('%s %s: %d jobs, %d simulated runs, %d distinct non-trivial, %d violations reported, known findings matched: %d, build %.1fs, jobs %.1fs, total %.1fs'
